@@ -265,9 +265,55 @@ func runC05DeadlineInWait(c *Cfg) {
 	})
 }
 
+// runC05TinyWait: a retry wait of a few nanoseconds is over the moment it is looked at; a cancellation made inside the
+// failing attempt before it must still keep the next attempt from starting (every time, not half of the time).
+func runC05TinyWait(c *Cfg) {
+	r := c.Rep
+	var cases []*scen.Scenario
+	for kind := 0; kind < scen.NumScriptedKinds; kind++ {
+		if !scen.KindHasRetry(kind) {
+			continue
+		}
+		for _, wns := range []int{1, 60} {
+			for _, at := range []int{1, 2} {
+				for depth := 0; depth <= 1; depth++ {
+					nodes := []scen.NodeSpec{{Kind: kind, N: 4, WaitNs: wns, HasFB: (kind+at)%2 == 0, Visits: []scen.Visit{{FirstOK: 5, Post: "go"}}}}
+					root := 0
+					if depth == 1 {
+						nodes = append(nodes, scen.NodeSpec{Kind: scen.KFlow, N: 1, Flow: &scen.FlowSpec{Start: 0}})
+						root = 1
+					}
+					cases = append(cases, &scen.Scenario{Nodes: nodes, Root: root, Runs: 1, Inject: scen.Inject{Kind: []string{"cancel", "deadline"}[(kind+wns)%2], At: at}})
+				}
+			}
+		}
+	}
+	reps := c.Pick(24, 400)
+	parallel(c, len(cases), func(i int) {
+		base := cases[i].Clone()
+		base.Inject = scen.Inject{}
+		ref := keysOf(scen.NewExec(base).RunOnce().Events)
+		for rep := 0; rep < reps; rep++ {
+			o := scen.NewExec(cases[i]).RunOnce()
+			r.EvalN(1)
+			r.Count("inject.tiny-wait", 1)
+			bad := false
+			for _, f := range judgeC05(c, cases[i], ref, &o, rep == 0) {
+				r.Violate("C05", "C05:"+f.Key, fmt.Sprintf("retry wait of %d ns: %s", cases[i].Nodes[0].WaitNs, f.Detail), ScenCase{"tiny-wait", cases[i]})
+				bad = true
+			}
+			if bad {
+				break
+			}
+		}
+		r.Nontrivial("tw:" + scenSig(cases[i]))
+	})
+}
+
 func runC05(c *Cfg) {
 	r := c.Rep
 	defer runC05TripAtCheck(c)
+	defer runC05TinyWait(c)
 	defer runC05DeadlineInWait(c)
 	defer runC05FlowRetries(c)
 	defer runC05Getters(c)
